@@ -84,9 +84,14 @@ def main():
             for f in demos:
                 tests += re.findall(r"^func (Test\w+)\(", open(f).read(), re.M)
                 fd = ddir
-                m = re.search(r"cp\s+\S*" + re.escape(os.path.basename(f)) + r"\s+(\S+)", rd)  # per-file destination named in the README
+                m = None
+                for line in rd.splitlines():  # per-file destination named in the README: last word of the cp command that names the file
+                    w = line.strip().split()
+                    if len(w) >= 3 and w[0] == "cp" and any(x.endswith(os.path.basename(f)) for x in w[1:-1]):
+                        m = w[-1]
+                        break
                 if m and not a.demo_dir:
-                    fd = m.group(1).rstrip("/").replace(wt + "/", "")
+                    fd = m.rstrip("/").replace(wt + "/", "")
                     if fd.endswith(".go"):
                         fd = os.path.dirname(fd)
                 shutil.copy(f, os.path.join(wt, fd))
